@@ -223,3 +223,15 @@ Section GatherSpec.
           apply IH; auto; [lia|]. eapply Fresh_tail; eauto.
   Qed.
 End GatherSpec.
+
+(* ---------- liveness note ----------
+   A provider that answers every request for x with some other state event d makes the retry
+   loop of checkAllowedByAuthEvents run for ever: the model runs out of fuel whatever the fuel. *)
+Lemma gather_spins (d : event) (x : N) (rest : list N) :
+  eid d <> x -> is_state d = true ->
+  forall fuel acc m (ps : unit), mget m x = None ->
+  fst (fst (fst (gather unit (fun ps _ => (ps, PEvents [d])) fuel true (x :: rest) acc m ps))) = GOutOfFuel.
+Proof.
+  intros Hne Hst. induction fuel as [|f IH]; intros acc m ps Hm; simpl; auto.
+  rewrite Hm, Hst. apply IH. rewrite mget_mset_other; auto.
+Qed.
